@@ -105,6 +105,16 @@ def describe(body, op, depth=30):
                             cc = op_const(s["rv"]["op"])
                             if cc is not None and ("str" in cc or "bytes" in cc):
                                 return Val("conststr", cc.get("str", bytes(cc["bytes"]).decode("latin1")))
+                # &RANGE_CONST with a small memory-backed range of bytes (`const DIGITS: RangeInclusive<u8> = b'0'..=b'9'`)
+                for blk in pb.blocks:
+                    for s in blk["stmts"]:
+                        if s["k"] == "assign" and s["rv"]["k"] == "use":
+                            cc = op_const(s["rv"]["op"])
+                            if cc is not None and "raw" in cc and "field_offsets" in cc and "Range" in str(cc.get("ty", "")) and "u8" in str(cc.get("ty", "")):
+                                offs = dict((n_, o_) for n_, o_ in cc["field_offsets"])
+                                if "start" in offs and "end" in offs and max(offs["start"], offs["end"]) < len(cc["raw"]):
+                                    kind_ = "RangeInclusive" if "RangeInclusive" in str(cc["ty"]) else "Range"
+                                    return Val("agg", kind_, [Val("const", cc["raw"][offs["start"]]), Val("const", cc["raw"][offs["end"]])])
                 # a promoted constant value such as &Some(b'='): describe what the promoted body builds
                 try:
                     pv = describe_place(pb, {"l": 0, "p": []}, depth - 1)
